@@ -275,6 +275,211 @@ fn grant_rights(p: &mut Pos, t: &mut Tape) {
     }
 }
 
+
+/// Positions whose FEN text is as long as FEN text gets: along every rank men and single empty
+/// squares alternate (every rank reads like `r1b1k1n1` or `1p1p1p1p`), so the placement field has
+/// 64 + 7 characters; now and then a few men fewer. Both sides have up to sixteen men, nearly all
+/// of them with something to do. Construction instead of rejection: a man attacking the king of
+/// the side that is not to move is exchanged for another man of its colour that does not.
+pub fn plant_long_fen(t: &mut Tape) -> Option<Pos> {
+    let mut p = Pos::empty();
+    let mut occ: Vec<Sq> = vec![];
+    for r in 0..8i8 {
+        let phase = t.below(2) as i8;
+        for f in 0..8i8 {
+            if (f + phase) % 2 == 0 {
+                occ.push(mk(f, r).unwrap());
+            }
+        }
+    }
+    let drop = [0usize, 0, 0, 1, 2, 4][t.below(6)];
+    for _ in 0..drop {
+        let i = t.below(occ.len());
+        occ.swap_remove(i);
+    }
+    let wk = occ[t.below(occ.len())];
+    let cands: Vec<Sq> = occ.iter().copied().filter(|&s| s != wk && !adjacent(s, wk)).collect();
+    let bk = cands[t.below(cands.len())];
+    p.board[wk as usize] = Some((Col::W, Kind::K));
+    p.board[bk as usize] = Some((Col::B, Kind::K));
+    for &s in &occ {
+        if s == wk || s == bk {
+            continue;
+        }
+        let mut c = if t.chance(1, 2) { Col::W } else { Col::B };
+        if p.men(c) >= 16 {
+            c = c.other();
+        }
+        if p.men(c) >= 16 {
+            continue;
+        }
+        let back = rank_of(s) == 0 || rank_of(s) == 7;
+        let mut k = match t.below(10) {
+            0..=4 => Kind::P,
+            5 | 6 => Kind::N,
+            7 => Kind::B,
+            8 => Kind::R,
+            _ => Kind::Q,
+        };
+        if k == Kind::P && (back || p.count(c, Kind::P) >= 8) {
+            k = [Kind::N, Kind::B, Kind::R, Kind::Q][t.below(4)];
+        }
+        p.board[s as usize] = Some((c, k));
+    }
+    p.stm = if t.chance(1, 2) { Col::W } else { Col::B };
+    for _ in 0..8 {
+        let nm = p.stm.other();
+        let k = p.king_sq(nm)?;
+        let att: Vec<Sq> = p.attackers(k, p.stm).into_iter().filter(|s| !matches!(p.at(*s), Some((_, Kind::K)))).collect();
+        if att.is_empty() {
+            break;
+        }
+        for s in att {
+            let c = p.at(s)?.0;
+            let back = rank_of(s) == 0 || rank_of(s) == 7;
+            let kinds = [Kind::N, Kind::B, Kind::P, Kind::R, Kind::Q];
+            let first = t.below(5);
+            let mut fixed = false;
+            p.board[s as usize] = None;
+            for j in 0..5 {
+                let kind = kinds[(first + j) % 5];
+                if kind == Kind::P && (back || p.count(c, Kind::P) >= 8) {
+                    continue;
+                }
+                p.board[s as usize] = Some((c, kind));
+                if !p.attackers(k, c).contains(&s) {
+                    fixed = true;
+                    break;
+                }
+            }
+            if !fixed {
+                p.board[s as usize] = None;
+            }
+        }
+    }
+    grant_rights(&mut p, t);
+    p.validate().ok()?;
+    Some(p)
+}
+
+/// Positions after many promotions: one side owns nine to fourteen queens, rooks and bishops, most
+/// of them on the lines through the enemy king (where they are candidates for giving check or
+/// pinning), screened from it by single men of either colour. Construction instead of rejection:
+/// a slider that would attack the king of the side not to move gets a blocker or is taken off.
+pub fn plant_many_sliders(t: &mut Tape) -> Option<Pos> {
+    let mut p = Pos::empty();
+    let a = if t.chance(1, 2) { Col::W } else { Col::B }; // owner of the sliders
+    let b = a.other();
+    let bk = t.below(64) as Sq;
+    let cands: Vec<Sq> = (0..64u8).filter(|&s| s != bk && !adjacent(s, bk)).collect();
+    let ak = cands[t.below(cands.len())];
+    p.board[ak as usize] = Some((a, Kind::K));
+    p.board[bk as usize] = Some((b, Kind::K));
+    let on_rook_line = |s: Sq| file_of(s) == file_of(bk) || rank_of(s) == rank_of(bk);
+    let on_diag = |s: Sq| (file_of(s) - file_of(bk)).abs() == (rank_of(s) - rank_of(bk)).abs();
+    let n = 9 + t.below(6);
+    for _ in 0..n {
+        let aligned: Vec<Sq> = (0..64u8).filter(|&s| p.at(s).is_none() && !adjacent(s, bk) && (on_rook_line(s) || on_diag(s))).collect();
+        let any: Vec<Sq> = (0..64u8).filter(|&s| p.at(s).is_none()).collect();
+        let s = if !aligned.is_empty() && t.chance(5, 6) { aligned[t.below(aligned.len())] } else { any[t.below(any.len())] };
+        let k = if t.chance(1, 8) {
+            [Kind::Q, Kind::R, Kind::B][t.below(3)]
+        } else if on_rook_line(s) {
+            if t.chance(2, 3) { Kind::R } else { Kind::Q }
+        } else if t.chance(2, 3) {
+            Kind::B
+        } else {
+            Kind::Q
+        };
+        p.board[s as usize] = Some((a, k));
+    }
+    // screens: every slider that attacks the enemy king gets one man on a square in between
+    for _ in 0..24 {
+        let att: Vec<Sq> = p.attackers(bk, a).into_iter().filter(|s| !matches!(p.at(*s), Some((_, Kind::K)))).collect();
+        if att.is_empty() {
+            break;
+        }
+        let s = att[t.below(att.len())];
+        let (df, dr) = ((file_of(bk) - file_of(s)).signum(), (rank_of(bk) - rank_of(s)).signum());
+        let mut between: Vec<Sq> = vec![];
+        let (mut f, mut r) = (file_of(s) + df, rank_of(s) + dr);
+        while let Some(q) = mk(f, r) {
+            if q == bk {
+                break;
+            }
+            between.push(q);
+            f += df;
+            r += dr;
+        }
+        if between.is_empty() {
+            p.board[s as usize] = None;
+            continue;
+        }
+        let q = between[t.below(between.len())];
+        let back = rank_of(q) == 0 || rank_of(q) == 7;
+        let c = if t.chance(2, 3) && p.men(b) < 16 { b } else { a };
+        if p.men(c) >= 16 {
+            p.board[s as usize] = None;
+            continue;
+        }
+        let k = match t.below(6) {
+            0 | 1 if !back && p.count(c, Kind::P) < 8 => Kind::P,
+            0..=3 => Kind::N,
+            4 => Kind::B,
+            _ => Kind::R,
+        };
+        p.board[q as usize] = Some((c, k));
+    }
+    // a few more men for the other side
+    for _ in 0..t.below(5) {
+        let k = [Kind::P, Kind::N, Kind::B, Kind::R, Kind::Q][t.below(5)];
+        place(&mut p, t, b, k);
+    }
+    p.stm = if t.chance(2, 3) { a } else { b };
+    let nm = p.stm.other();
+    clear_attackers(&mut p, nm);
+    if t.chance(3, 4) {
+        let m = p.stm;
+        clear_attackers(&mut p, m);
+    }
+    p.validate().ok()?;
+    Some(p)
+}
+
+/// The other valid positions with the same men on the same squares: the turn with the other side,
+/// castling rights dropped, the en-passant state dropped. Asked one right after the other they
+/// are what a cache keyed on the placement alone cannot tell apart.
+pub fn placement_siblings(p: &Pos) -> Vec<Pos> {
+    let mut v = vec![];
+    let mut q = p.clone();
+    q.stm = p.stm.other();
+    q.ep = None;
+    if q.validate().is_ok() {
+        v.push(q);
+    }
+    if p.castle.iter().any(|x| *x) {
+        let mut q = p.clone();
+        q.castle = [false; 4];
+        if q.validate().is_ok() {
+            v.push(q);
+        }
+        let mut q = p.clone();
+        let first = p.castle.iter().position(|x| *x).unwrap();
+        q.castle[first] = false;
+        if q != *v.last().unwrap_or(p) && q.validate().is_ok() {
+            v.push(q);
+        }
+    }
+    if p.ep.is_some() {
+        let mut q = p.clone();
+        q.ep = None;
+        if q.validate().is_ok() {
+            v.push(q);
+        }
+    }
+    v
+}
+
 // ------------------------------------------------------------------ policies
 
 #[derive(Clone, Copy, PartialEq, Eq, Debug)]
@@ -395,15 +600,24 @@ pub fn raw_hist_strategy(min_plies: usize, max_plies: usize) -> impl Strategy<Va
 }
 
 /// Start position of a raw case: curated (about 3 in 8), set up directly (about 4 in 9) or planted
-/// (about 3 in 16: boxed-in king with one movable feature, en passant next to the king).
+/// (about 3 in 16: boxed-in king with one movable feature, en passant next to the king, and - 1 in
+/// 64 each - the longest FEN texts and many promoted sliders around the enemy king).
 pub fn start_of(raw: &RawHist) -> Option<(String, Pos)> {
     let cur = curated();
     if raw.start_sel < 0x6000 {
         let i = (raw.start_sel as usize * cur.len()) / 0x6000;
         Some((cur[i].tag.clone(), cur[i].pos.clone()))
-    } else if raw.start_sel < 0xD000 {
+    } else if raw.start_sel < 0xC800 {
         let mut t = Tape::new(&raw.setup);
         setup_position(&mut t).map(|p| ("setup".to_string(), p))
+    } else if raw.start_sel < 0xCC00 {
+        // the longest FEN texts: men and single empty squares alternating along every rank
+        let mut t = Tape::new(&raw.setup);
+        plant_long_fen(&mut t).map(|p| ("planted".to_string(), p)).or_else(|| setup_position(&mut Tape::new(&raw.setup)).map(|p| ("setup".to_string(), p)))
+    } else if raw.start_sel < 0xD000 {
+        // many promoted sliders on the lines through the enemy king
+        let mut t = Tape::new(&raw.setup);
+        plant_many_sliders(&mut t).map(|p| ("planted".to_string(), p)).or_else(|| setup_position(&mut Tape::new(&raw.setup)).map(|p| ("setup".to_string(), p)))
     } else if raw.start_sel < 0xE800 {
         // planted low-mobility positions (boxed-in king plus one movable feature)
         // (a rejected planting falls back to the direct set-up from the same tape: construction
